@@ -4,6 +4,7 @@ position), full product where small, default + <= 2 deviating positions
 otherwise; aggregations over every ordered content of length <= 3 in every
 argument form.  Oracle: ref/funcs.py, audited at start-up against test.xlsx."""
 import sys, itertools
+import itertools
 from mc.core import Fail, result
 from ref.values import *
 from ref import funcs as F
@@ -311,6 +312,60 @@ def run_case(case):
     return result(1, [oc], fails)
 
 
+# ---- aggregations over the result of another function over a range (computed logical / numeric arrays) --------------
+COMPOSE_AGG = ['COUNT', 'COUNTA', 'SUM', 'MAX', 'MIN', 'AVERAGE', 'MEDIAN', 'PRODUCT', 'SUMSQ', 'STDEV', 'VAR']     # LARGE/SMALL over computed logical arrays: not decided (Excel's treatment not certain)
+COMPOSE_INNER = {
+    'ISNUMBER(%s)': lambda v: B(v[0] == 'n'), 'ISTEXT(%s)': lambda v: B(v[0] == 't'), 'ISLOGICAL(%s)': lambda v: B(v[0] == 'b'),
+    'ISBLANK(%s)': lambda v: B(v[0] == 'blank'), 'ISERROR(%s)': lambda v: B(v[0] == 'e'), 'NOT(ISNUMBER(%s))': lambda v: B(v[0] != 'n'),
+    'ISNUMBER(%s)+0': lambda v: N(1.0 if v[0] == 'n' else 0.0), 'IF(ISNUMBER(%s),1,"t")': lambda v: N(1) if v[0] == 'n' else T('t'),
+}
+COMPOSE_CELLS = [N(3), T('x'), B(True), BLANK, ('e', '#N/A'), N(-1.5)]
+
+
+def compose_cases(tier):
+    for agg_ in COMPOSE_AGG:
+        for inner in COMPOSE_INNER:
+            for n in (1, 2, 3, 4):
+                for combo in itertools.product(range(len(COMPOSE_CELLS)), repeat=n):
+                    if tier == 'quick' and n == 4 and hash_free(combo) % 5:
+                        continue
+                    yield ['compose', agg_, inner, list(combo)]
+
+
+def hash_free(combo):
+    return sum((i + 1) * (x + 1) for i, x in enumerate(combo))
+
+
+def run_compose(case):
+    from xl.evalcell import eval_formula
+    _, agg_, inner, combo = case
+    vals = [COMPOSE_CELLS[i] for i in combo]
+    arr = [[COMPOSE_INNER[inner](v)] for v in vals]
+    args = [('a', arr)] + ([('v', N(1))] if agg_ in ('LARGE', 'SMALL') else [])
+    exp = F.call(agg_, args)
+    if exp is None:
+        return result(0, ['skip:undecided'])
+    ref = 'B1:B%d' % len(vals) if len(vals) > 1 else 'B1'
+    text = '=%s(%s%s)' % (agg_, inner % ref, ',1' if agg_ in ('LARGE', 'SMALL') else '')
+    inputs = {ref: ('arr', [[v] for v in vals])} if len(vals) > 1 else {'B1': vals[0]}
+    got = eval_formula(text, inputs)
+    fails = []
+    if not F.accepted(got, exp, F.tol(agg_)):
+        fails.append(Fail('bad-value' if got[0] == 'BAD' else 'wrong-result', got=got, exp=sorted(map(str, exp)), fn=agg_, group='compose', sig=inner,
+                          vals='|'.join(str(v) for v in vals), nargs=1, gotk=got[1] if got[0] in ('e', 'BAD') else got[0],
+                          expk='/'.join(sorted({e[1] if e[0] == 'e' else e[0] for e in exp})), formula=text))
+    return result(1, ['compose:%s' % (got[1] if got[0] in ('e', 'BAD') else got[0])], fails)
+
+
+_run_case_tables = run_case
+
+
+def run_case(case):
+    if case and case[0] == 'compose':
+        return run_compose(case)
+    return _run_case_tables(case)
+
+
 def run(ctx):
     from ref import funcs_audit
     stats, bad = funcs_audit.audit()
@@ -320,6 +375,7 @@ def run(ctx):
         sys.exit(2)
     ctx.explore(run_case, scalar_cases(ctx.tier), chunksize=256, label='scalar domain tables')
     ctx.explore(run_case, agg_cases(ctx.tier), chunksize=256, label='aggregation contents x forms')
+    ctx.explore(run_case, compose_cases(ctx.tier), chunksize=256, label='aggregation over computed arrays')
     return {'functions': len(set(TABLE) | set(STD) | set(AFUN)) + 8, 'pool_size': len(pools(ctx.tier)['G']),
             'oracle_audit': {'formulas': stats['audited_formulas'], 'cells': stats['audited_cells'], 'disagreements': 0,
                              'undecided': stats['undecided'], 'per_function': stats['per_function']},
